@@ -16,15 +16,15 @@ TEXT = {
     'targa-subrect': 'F13 targa read_data/read_rle_data ignore top_left.y: a sub-rectangle that does not end at the last row returns the bottom dim.y rows (drafts/F13_targa_subrect_rows.patch)',
     'bmp-rle-subrect': 'F13 bmp read_palette_image_rle: row buffer sized dim.x but indexed from top_left.x, rows counted from dim.y, copy_row_if_needed tests y<dim.y: sub-rectangles of RLE4/RLE8 bitmaps are wrong, with heap overflows (drafts/F13_bmp_rle_subrect.patch)',
     'bmp-palette-convert': 'bmp read_and_convert_* of palette bitmaps (raw and RLE) assigns palette entries to the destination by channel position and never calls the colour converter (gray=red, 16-bit unscaled, alpha 0)',
-    'bmp-top-down': 'F19 bmp: negative height sets _top_down but get_offset tests _height>0 after it was made positive: top-down bitmaps decode upside down (drafts/F19_bmp_top_down_rows.patch)',
-    'bmp-v4-palette': 'F20 bmp: colour table of V4/V5-header bitmaps read from offset 54 with 3-byte entries (drafts/F20_bmp_v4_palette.patch)',
+    'bmp-top-down': 'F13c bmp: negative height sets _top_down but get_offset tests _height>0 after it was made positive: top-down bitmaps decode upside down (drafts/F13c_bmp_top_down_rows.patch)',
+    'bmp-v4-palette': 'F13d bmp: colour table of V4/V5-header bitmaps read from offset 54 with 3-byte entries (drafts/F13d_bmp_v4_palette.patch)',
     'any-image-type-selection': 'any_image read: the format checker picks an alternative that reader::apply then rejects (Win32 palette BMP -> rgb8 instead of rgba8; ASCII PBM -> gray1 instead of gray8; palette/tRNS PNG samples)',
-    'pnm-p4-bit-order': 'F21 pnm: P4 rows are nibble-swapped instead of bit-mirrored on read (drafts/F21_pnm_gray1_bit_order_and_row_size.patch)',
+    'pnm-p4-bit-order': 'F13e pnm: P4 rows are nibble-swapped instead of bit-mirrored on read (drafts/F13e_pnm_gray1_bit_order_and_row_size.patch)',
     'pnm-p1-nospace': 'pnm: P1 raster without white space between samples (legal) is parsed as one number per row; most of the image is never written',
     'png-interlaced-read': 'png: Adam7 files are read with one row buffer for all rows across the passes: full image wrong, sub-rectangles differ from it',
     'tiff-read-and-convert': 'tiff read_and_convert_image/view: tiled files are reinterpreted with the destination pixel type, float samples are misread, partial converting reads overflow the row buffer',
     # C12
-    'pnm-gray1': 'F21 pnm gray1: writer allocates width/8 (rounded down) bytes per row (null dereference / heap overflow for width%8!=0) and mirrors bits while the reader swaps nibbles (drafts/F21_pnm_gray1_bit_order_and_row_size.patch)',
+    'pnm-gray1': 'F13e pnm gray1: writer allocates width/8 (rounded down) bytes per row (null dereference / heap overflow for width%8!=0) and mirrors bits while the reader swaps nibbles (drafts/F13e_pnm_gray1_bit_order_and_row_size.patch)',
     'tiff-bgr8': 'tiff: bgr8 is reported supported; the reader copies RGB samples positionally into bgr8 pixels (r/b swapped); tiled interleaved bgr8 is written as BGR under PHOTOMETRIC_RGB',
     'tiff-rgba-premultiplied': 'tiff: rgba is written premultiplied (EXTRASAMPLE_ASSOCALPHA) and not un-premultiplied on read; in tiled files only complete interior tiles are premultiplied',
     'tiff-gray1-ccitt': 'tiff: 1-bit rows are handed to libtiff LSB-first (the "do optional bit swapping" TODO): with CCITT codecs only the first width bits in MSB order are coded, pixels are lost for width%8!=0',
